@@ -292,6 +292,24 @@ impl TypeChecker {
                 // create a symbol as if it were `import module::item`
                 for item in items {
                     let name = item.alias.clone().unwrap_or_else(|| item.name.clone());
+                    // `from m import f as g`: g is another name for the function the dependency module exports as f.
+                    // Without this the alias is only a module placeholder of unknown type (`g(1)?` was rejected).
+                    if item.alias.is_some() {
+                        let exported = self
+                            .symbols
+                            .lookup(&item.name)
+                            .and_then(|id| self.symbols.get(id))
+                            .map(|sym| sym.kind.clone());
+                        if let Some(kind @ SymbolKind::Function(_)) = exported {
+                            self.symbols.define(Symbol {
+                                name,
+                                kind,
+                                span,
+                                scope: 0,
+                            });
+                            continue;
+                        }
+                    }
                     let mut path = module.segments.clone();
                     path.push(item.name.clone());
                     self.define_import_symbol(name, path, false, span);
